@@ -194,6 +194,7 @@ fn set_shapes() -> Vec<Vec<Re>> {
         vec![alt(st("ab"), st("ac")), cat(ch('a'), star(ch('b'))), ch('c')],
         vec![cat(ch('b'), opt(st("ab"))), st("ba")],
         vec![cat(st("ab"), Re::Eoi), ch('a'), ch('b')],
+        vec![cat(cat(ch('a'), star(Re::Any)), ch('b')), ch('c'), ch('b')],
     ]
 }
 
@@ -539,13 +540,128 @@ pub fn stale_family() -> Vec<Spec> {
     out
 }
 
+/// Two rules that start with overlapping / nested / adjacent ranges and continue differently
+/// (the ranges of several rules are split against each other in subset construction).
+pub fn range_overlap_family() -> Vec<Spec> {
+    let rs = [('a', 'c'), ('b', 'd'), ('c', 'e'), ('a', 'e'), ('b', 'c'), ('d', 'e'), ('a', 'a')];
+    let mut out = vec![];
+    for (i, r1) in rs.iter().enumerate() {
+        for (j, r2) in rs.iter().enumerate() {
+            if i == j {
+                continue;
+            }
+            out.push(Spec::single(vec![ret(cat(set(&[*r1]), ch('x'))), ret(cat(set(&[*r2]), ch('c'))), ret(ch('x'))], "range_overlap"));
+        }
+    }
+    // with `_` and single characters in the same state, and followed by alternations / repetition
+    out.push(Spec::single(vec![ret(cat(set(&[('a', 'c')]), ch('a'))), ret(cat(Re::Any, alt(ch('x'), ch('b')))), ret(ch('c'))], "range_overlap"));
+    out.push(Spec::single(vec![ret(cat(set(&[('b', 'c')]), ch('a'))), ret(cat(Re::Any, opt(ch('x')))), ret(cat(ch('b'), ch('b')))], "range_overlap"));
+    out.push(Spec::single(vec![ret(cat(set(&[('a', 'c')]), star(ch('x')))), ret(cat(set(&[('b', 'e')]), plus(ch('c'))))], "range_overlap"));
+    out
+}
+
+/// Delimited lexemes: a `_` (or `_ # c`) loop between delimiters — the `_` transition leads to a
+/// state with several predecessors (never inlined).
+pub fn delimited_family() -> Vec<Spec> {
+    vec![
+        Spec::single(vec![ret(cat(cat(ch('a'), star(Re::Any)), ch('b'))), ret(ch('c')), ret(ch('a'))], "delimited"),
+        Spec::single(vec![ret(cat(cat(ch('a'), star(diff(Re::Any, ch('b')))), ch('b'))), ret(plus(ch('c'))), ret(ch('x'))], "delimited"),
+        Spec::single(vec![ret(cat(cat(st("ab"), star(Re::Any)), st("ba"))), ret(ch('a')), ret(ch('b'))], "delimited"),
+        Spec::single(vec![ret(cat(cat(ch('a'), plus(cat(Re::Any, ch('c')))), ch('b'))), ret(set(&[('a', 'c')]))], "delimited"),
+    ]
+}
+
+/// A diamond: two paths (one through an accepting state) join and continue for several steps.
+pub fn diamond_family() -> Vec<Spec> {
+    let mut out = vec![];
+    for tail in [st("bcd"), cat(st("bc"), plus(ch('d'))), cat(ch('b'), cat(set(&[('b', 'c')]), ch('d')))] {
+        for head in [alt(ch('a'), ch('x')), set(&[('a', 'a'), ('x', 'x')]), alt(ch('x'), ch('a'))] {
+            out.push(Spec::single(vec![ret(ch('a')), ret(cat(head.clone(), tail.clone())), ret(ch('d'))], "diamond"));
+            out.push(Spec::single(vec![ret(cat(head.clone(), tail.clone())), ret(ch('a')), ret(ch('b'))], "diamond"));
+        }
+    }
+    out
+}
+
+/// Built-in classes inside rules: search tables in front of further states, several class-led rules.
+pub fn builtin_rules_family() -> Vec<Spec> {
+    let b = |n: &str| builtin(n);
+    vec![
+        Spec::single(vec![ret(plus(b("alphabetic"))), ret(plus(b("ascii_digit"))), ret(Re::Any)], "builtin_rules"),
+        Spec::single(vec![ret(cat(b("XID_Start"), star(b("XID_Continue")))), ret(cat(plus(b("numeric")), opt(cat(ch('.'), plus(b("numeric")))))), ret(Re::Any)], "builtin_rules"),
+        Spec::single(vec![ret(cat(b("uppercase"), plus(b("lowercase")))), ret(plus(diff(b("alphanumeric"), b("uppercase")))), ret(plus(b("uppercase")))], "builtin_rules"),
+        Spec::single(vec![ret(plus(alt(b("lowercase"), ch('_')))), ret(cat(set(&[('0', '9'), ('a', 'b'), ('d', 'e'), ('g', 'h'), ('j', 'k'), ('m', 'n'), ('p', 'q'), ('s', 't'), ('v', 'w'), ('y', 'z'), ('A', 'Z')]), ch('!'))), ret(Re::Any)], "builtin_rules"),
+        Spec::single(vec![ret(cat(plus(b("ascii_lowercase")), ch('.'))), ret(cat(plus(b("ascii_graphic")), ch('!'))), ret(Re::Any)], "builtin_rules"),
+        Spec::single(vec![ret(b("lowercase")), ret(b("alphabetic")), ret(Re::Any)], "builtin_rules"),
+        Spec::single(vec![ret(plus(alt(b("control"), b("whitespace")))), ret(plus(b("ascii_punctuation"))), ret(ch('a'))], "builtin_rules"),
+    ]
+}
+pub const TABLE_ALPHABET: [char; 8] = ['a', 'z', 'Z', '9', '_', '!', '.', '\u{10FFFF}'];
+
+/// Shapes that every end-to-end check explores under its own projection, whatever else it has:
+/// each was once the only way to see a seeded change.
+pub fn shape_pool(q: bool) -> Vec<Spec> {
+    let mut v = regress_single();
+    v.extend(after_accept_family().into_iter().step_by(if q { 8 } else { 2 }));
+    v.extend(alt_rep_family().into_iter().step_by(if q { 12 } else { 3 }));
+    v.extend(stale_family());
+    v.extend(diamond_family().into_iter().step_by(if q { 2 } else { 1 }));
+    v.extend(delimited_family());
+    v.extend(range_overlap_family().into_iter().step_by(if q { 3 } else { 1 }));
+    v.extend(ctx_family(false).into_iter().filter(|s| s.family == "ctx_past" || s.family == "ctx_shared"));
+    v.extend(eoi_family().into_iter().filter(|s| s.family == "eoi1").step_by(if q { 3 } else { 1 }));
+    v
+}
+
+/// The pool as two groups (letters a b c x; characters at the ends of table ranges).
+pub fn pool_groups(prop: &'static str, proj: Proj, q: bool, max_dev: usize) -> Vec<Group> {
+    let p1 = plan(prop, proj, 5, max_dev);
+    let mut p2 = plan(prop, proj, if q { 3 } else { 4 }, 0);
+    p2.alphabet = TABLE_ALPHABET.to_vec();
+    p2.extra_inputs = vec!["az9_!".into(), "zZ.9\u{10FFFF}a".into(), "aZz99.9!".into()];
+    vec![Group { plan: p1, specs: shape_pool(q) }, Group { plan: p2, specs: builtin_rules_family() }]
+}
+
 fn with<F: FnOnce(&mut Plan)>(mut p: Plan, f: F) -> Plan {
     f(&mut p);
     p
 }
 
-/// The groups (plan + definitions) explored for a property at a tier.
+/// The groups (plan + definitions) explored for a property at a tier: the property's own
+/// families plus the common shape pool under the property's projection.
 pub fn groups(prop: &str, tier: &str) -> Vec<Group> {
+    let mut g = groups_core(prop, tier);
+    let q = tier != "thorough";
+    let pooled: Option<(&'static str, Proj, usize)> = match prop {
+        "C01" => Some(("C01", Proj::Tokens, 0)),
+        "C05" => Some(("C05", Proj::Full, 1)),
+        "C06" => Some(("C06", Proj::Locs, 0)),
+        "C07" => Some(("C07", Proj::Errors, 0)),
+        "C08" => Some(("C08", Proj::Recovery, 0)),
+        "C09" => Some(("C09", Proj::Progress, 0)),
+        "C10" => Some(("C10", Proj::Full, 1)),
+        "C14" => Some(("C14", Proj::Ctors, 0)),
+        "C15" => Some(("C15", Proj::Clones, 0)),
+        _ => None,
+    };
+    if let Some((p, proj, dev)) = pooled {
+        let template = g[0].plan.clone();
+        for mut pg in pool_groups(p, proj, q, dev) {
+            pg.plan.ctors = template.ctors.clone();
+            pg.plan.check_probe_neutral = template.check_probe_neutral;
+            pg.plan.clone_depth = template.clone_depth;
+            pg.plan.pieces = template.pieces;
+            if proj == Proj::Clones {
+                pg.plan.max_len = pg.plan.max_len.min(if q { 3 } else { 4 });
+                pg.specs = pg.specs.into_iter().step_by(2).collect();
+            }
+            g.push(pg);
+        }
+    }
+    g
+}
+
+fn groups_core(prop: &str, tier: &str) -> Vec<Group> {
     let q = tier != "thorough";
     let a6 = atoms6();
     let a12 = atoms12();
@@ -589,28 +705,47 @@ pub fn groups(prop: &str, tier: &str) -> Vec<Group> {
                     .collect();
                 Group { plan: with(plan("C02", Proj::Tokens, 5, 0), |p| p.alphabet = beta.to_vec()), specs }
             };
-            // built-in classes inside rules (guard chains and search tables in front of further states)
-            let b = |n: &str| builtin(n);
-            let builtin_rules = vec![
-                Spec::single(vec![ret(plus(b("alphabetic"))), ret(plus(b("ascii_digit"))), ret(Re::Any)], "builtin_rules"),
-                Spec::single(vec![ret(cat(b("XID_Start"), star(b("XID_Continue")))), ret(cat(plus(b("numeric")), opt(cat(ch('.'), plus(b("numeric")))))), ret(Re::Any)], "builtin_rules"),
-                Spec::single(vec![ret(cat(b("uppercase"), plus(b("lowercase")))), ret(plus(diff(b("alphanumeric"), b("uppercase")))), ret(plus(b("uppercase")))], "builtin_rules"),
-                Spec::single(vec![ret(plus(alt(b("lowercase"), ch('_')))), ret(cat(set(&[('0', '9'), ('a', 'b'), ('d', 'e'), ('g', 'h'), ('j', 'k'), ('m', 'n'), ('p', 'q'), ('s', 't'), ('v', 'w'), ('y', 'z'), ('A', 'Z')]), ch('!'))), ret(Re::Any)], "builtin_rules"),
-            ];
-            let mut builtin_rules = builtin_rules;
-            builtin_rules.push(Spec::single(vec![ret(cat(plus(b("ascii_lowercase")), ch('.'))), ret(cat(plus(b("ascii_graphic")), ch('!'))), ret(Re::Any)], "builtin_rules"));
-            builtin_rules.push(Spec::single(vec![ret(b("lowercase")), ret(b("alphabetic")), ret(Re::Any)], "builtin_rules"));
-            let pb = with(plan("C02", Proj::Tokens, if q { 4 } else { 5 }, 0), |p| p.alphabet = vec!['a', 'z', 'Z', '9', '_', '!', '.', 'é']);
+            let builtin_rules = builtin_rules_family();
+            let pb = with(plan("C02", Proj::Tokens, if q { 4 } else { 5 }, 0), |p| p.alphabet = TABLE_ALPHABET.to_vec());
             vec![Group { plan: plan("C02", Proj::Tokens, 6, 0), specs }, bound(&BETA1, if q { 40 } else { 300 }), bound(&BETA2, if q { 40 } else { 300 }), Group { plan: pb, specs: builtin_rules }]
         }
         "C03" => {
-            let mut specs = if q { sets_family(6, &[2, 3, 5], true) } else { sets_family(10, &[0, 2, 3, 5, 6, 9], true) };
+            let mut specs = if q { sets_family(6, &[2, 3, 5, 10], true) } else { sets_family(11, &[0, 2, 3, 5, 6, 9, 10], true) };
+            // the delimited shape (`_` loop) first / in the middle, so that inlined and numbered states surround it
+            {
+                let sh = set_shapes();
+                let mk = |v: &Vec<Re>, to: usize| -> Vec<Rule> { v.iter().enumerate().map(|(i, r)| rule(r.clone(), if i == 0 { Kind::Act(d_switch_return(to)) } else { Kind::Act(D_RETURN) })).collect() };
+                specs.push(Spec::multi(vec![mk(&sh[10], 1), mk(&sh[2], 2), mk(&sh[6], 0)], "sets_delimited"));
+                specs.push(Spec::multi(vec![mk(&sh[2], 1), mk(&sh[10], 2), mk(&sh[3], 0)], "sets_delimited"));
+                specs.push(Spec::multi(vec![mk(&sh[6], 1), mk(&sh[10], 0)], "sets_delimited"));
+            }
             // a rule set entered by a switch whose automaton has the "abandoned match" and the
             // "join reached with nothing recorded" shapes, next to an Init with overlapping rules
-            for stale in stale_family() {
-                let inner: Vec<Rule> = stale.sets[0].rules.iter().enumerate().map(|(i, r)| Rule { kind: if i == 0 { Kind::Act(d_switch_return(0)) } else { Kind::Act(D_RETURN) }, ..r.clone() }).collect();
-                specs.push(Spec::multi(vec![vec![rule(ch('c'), Kind::Act(d_switch_return(1))), ret(ch('x')), ret(ch('b')), ret(cat(set(&[('b', 'b'), ('a', 'a')]), st("bc")))], inner], "sets_stale"));
+            for (pi, pooled) in shape_pool(q).into_iter().filter(|s| s.sets[0].rules.iter().all(|r| !r.re.has_eoi())).enumerate() {
+                if q && pi % 2 == 1 && pooled.family != "stale" {
+                    continue;
+                }
+                let inner: Vec<Rule> = pooled.sets[0].rules.iter().enumerate().map(|(i, r)| Rule { kind: if i == 0 { Kind::Act(d_switch_return(0)) } else { Kind::Act(D_RETURN) }, ..r.clone() }).collect();
+                specs.push(Spec::multi(vec![vec![rule(ch('c'), Kind::Act(d_switch_return(1))), ret(ch('x')), ret(ch('b')), ret(cat(set(&[('b', 'b'), ('a', 'a')]), st("bc")))], inner], "sets_pool"));
             }
+            // fallible rules in every rule set: an action's `Err` is not a failure and must not
+            // change the active rule set
+            let fallible: Vec<Spec> = sets_family(6, &[3], false)
+                .into_iter()
+                .step_by(if q { 4 } else { 1 })
+                .map(|mut s| {
+                    for set in s.sets.iter_mut() {
+                        for r in set.rules.iter_mut() {
+                            if let Kind::Act(d) = r.kind {
+                                r.kind = Kind::Fallible(d);
+                            }
+                        }
+                    }
+                    s.family = "sets_fallible";
+                    s
+                })
+                .collect();
+            specs.extend(fallible);
             vec![Group { plan: plan("C03", Proj::RuleIds, 5, if q { 2 } else { 3 }), specs }]
         }
         "C04" => vec![Group { plan: plan("C04", Proj::Full, if q { 5 } else { 6 }, if q { 0 } else { 1 }), specs: ctx_family(!q) }],
@@ -692,9 +827,12 @@ pub fn groups(prop: &str, tier: &str) -> Vec<Group> {
                     shapes.push(Spec::single(vec![rule(st("ab"), k0), rule(cat(st("ab"), Re::Eoi), k1), ret(ch('a')), ret(ch('c'))], "eoi_kinds"));
                 }
             }
+            // switch / switch_and_return: rule sets (incl. the pooled shapes as a second rule set)
+            let sets: Vec<Spec> = groups_core("C03", tier).remove(0).specs.into_iter().step_by(if q { 3 } else { 1 }).collect();
             vec![
                 Group { plan: plan("C10", Proj::Full, if q { 5 } else { 6 }, 2), specs: kinds_family(true) },
                 Group { plan: with(plan("C10", Proj::Full, 5, 1), |p| p.alphabet = vec!['a', 'b', 'c', 'x']), specs: shapes },
+                Group { plan: plan("C10", Proj::Full, if q { 4 } else { 5 }, 1), specs: sets },
             ]
         }
         "C14" => {
@@ -719,6 +857,21 @@ pub fn groups(prop: &str, tier: &str) -> Vec<Group> {
                 Group { plan: p3, specs: eoi_family() },
                 Group { plan: p4, specs: wide_family(&BETA1, if q { 6 } else { 10 }) },
                 Group { plan: p5, specs: wide_family(&BETA2, if q { 5 } else { 10 }) },
+                // characters an input source might treat specially (byte order mark, NUL, CR)
+                Group {
+                    plan: {
+                        let mut p6 = plan("C14", Proj::Ctors, if q { 4 } else { 5 }, 0);
+                        p6.ctors = vec![CTOR_NEW_WITH_STATE, CTOR_FROM_ITER_WITH_STATE, CTOR_NEW, CTOR_FROM_ITER, CTOR_FROM_CHARS_ITER];
+                        p6.alphabet = vec!['\u{FEFF}', 'a', '\r', '\0'];
+                        p6
+                    },
+                    specs: vec![
+                        Spec::single(vec![ret(Re::Any)], "any_only"),
+                        Spec::single(vec![ret(plus(ch('a'))), rule(Re::Any, Kind::Act(D_CONTINUE))], "any_only"),
+                        Spec::single(vec![ret(cat(Re::Any, ch('a'))), ret(ch('a')), rule(diff(Re::Any, ch('a')), Kind::Skip)], "any_only"),
+                        Spec::single(vec![ret(cat(ch('a'), opt(cat(Re::Any, ch('a'))))), ret(plus(diff(Re::Any, ch('a'))))], "any_only"),
+                    ],
+                },
             ]
         }
         "C15" => {
@@ -825,6 +978,16 @@ pub fn groups(prop: &str, tier: &str) -> Vec<Group> {
                         specs.push(s);
                     }
                 }
+            }
+            // class-valued variables with several pieces under `#` (grouped, named and single-set printings)
+            for (l, r) in [(alt(set(&[('a', 'b')]), set(&[('d', 'g')])), set(&[('b', 'e')])), (set(&[('a', 'c'), ('e', 'g')]), set(&[('b', 'f')]))] {
+                let mut s1 = Spec::single(vec![ret(cat(diff(var("v"), r.clone()), ch('x'))), ret(set(&[('a', 'g')]))], "let_class");
+                s1.lets = lets(&[("v", l.clone())]);
+                specs.push(s1);
+                specs.push(Spec::single(vec![ret(cat(diff(l.clone(), r.clone()), ch('x'))), ret(set(&[('a', 'g')]))], "let_class"));
+                let mut s3 = Spec::single(vec![ret(cat(diff(var("v"), var("w")), ch('x'))), ret(set(&[('a', 'g')]))], "let_class");
+                s3.lets = lets(&[("v", l.clone()), ("w", r.clone())]);
+                specs.push(s3);
             }
             // a let that refers to an earlier let; variables in right contexts
             let mut s = Spec::single(vec![ret(cat(var("w"), ch('c'))), Rule { re: var("d"), ctx: Some(var("w")), kind: Kind::Act(D_RETURN) }, ret(set(&[('a', 'c')]))], "let_chain");
@@ -1055,6 +1218,9 @@ pub fn p_family(name: &str) -> Option<PFamily> {
         "alt_rep" => from_vec(alt_rep_family()),
         "stale" => from_vec(stale_family()),
         "ctx_shapes" => from_vec(ctx_family(true)),
+        "range_overlap" => from_vec(range_overlap_family()),
+        "diamond" => from_vec(diamond_family()),
+        "delimited" => from_vec(delimited_family()),
         // `#` and `|` between classes with several pieces, used inside rules
         "diff_rules" => {
             let atoms = vec![
